@@ -255,8 +255,12 @@ pub fn job_c04(out_dir: &str, tier: &str, seed: u64) {
         }
         let cfg_all = json!({"elem": css.iter().map(|c| json!({"sel": c, "element": []})).collect::<Vec<_>>(), "strict": false});
         let tl = driver::run(&cfg_all, &html, &[], &RunOpts::default());
-        if tl.iter().any(|e| e["e"] == "new") { unparsable += 1; continue; }
+        // every generated selector is in the supported grammar and nothing can fail in this configuration: a refused
+        // selector or a failed run is judged (and rejected), not skipped
+        let failed: Option<String> = if tl.iter().any(|e| e["e"] == "new") { unparsable += 1; Some("selector refused".into()) }
+            else { tl.iter().filter(|e| e["e"] == "ret" && e["res"] != "ok").map(|e| e["res"].as_str().unwrap_or("?").to_string()).next() };
         let mut obs = vec![json!({"variant":"all-single","only":0,"inv":invocations(&tl, &offs)})];
+        if let Some(why) = failed { obs[0]["failed"] = json!(why); }
         let mut seen = std::collections::HashSet::new();
         seen.insert(obs[0]["inv"].to_string() + "|0");
         let mut add = |variant: &str, only: usize, inv: Vec<Value>, obs: &mut Vec<Value>| {
